@@ -197,9 +197,12 @@ package override
 //@   loop 1
 //@     invariant 0 <= i && i <= rangeindex + 1 && rangeindex < len(left)
 
+// C02: the comparator identifies equal strings only, so the sorted sequence does not depend on the
+// (unstable) sort algorithm or on the map iteration order that produced its input.
 //@ func convertIntoSequence$1
 //@   nopanic[C01,C04]
 //@   requires isStr(a) && isStr(b)
+//@   ensures[C02,C04] result == 0 ==> asStr(a) == asStr(b)
 
 //@ func convertIntoSequence
 //@   nopanic[C01,C04]
